@@ -143,6 +143,11 @@ func (c *monC04) After(m *Machine, s *Step) *Violation {
 		}
 		u := s.Post.Users[ka.PID]
 		lm := c.acct[ka.PID]
+		if lm == nil {
+			// an account the history created itself (first OAuth2 login): model it from storage
+			c.resync(ka.PID, u)
+			lm = c.acct[ka.PID]
+		}
 		if op.K == "unlock" {
 			if u.AttemptCount != 0 || u.Locked.After(time.Now().UTC()) {
 				return violation("C04", "unlock-incomplete", "after manual unlock of %q: count=%d locked until %v", ka.PID, u.AttemptCount, u.Locked)
@@ -302,11 +307,11 @@ func (c *monC04) End(m *Machine) *Violation { return nil }
 
 var kindsC04 = []wk{
 	{"login", 40}, {"otplogin", 10}, {"totpvalidate", 10}, {"smsvalidate", 10}, {"advance", 22}, {"lock", 3}, {"unlock", 4},
-	{"newsess", 4}, {"logout", 2}, {"smsresend", 2}, {"snip:2fa", 6},
+	{"newsess", 4}, {"logout", 2}, {"smsresend", 2}, {"snip:2fa", 6}, {"snip:oauthdeny", 5}, {"snip:oauth", 2},
 }
 
 var profC04 = profile{
-	must: []string{"auth", "lock"}, may: []string{"otp", "logout"},
+	must: []string{"auth", "lock"}, may: []string{"otp", "logout", "oauth2"},
 	setups: []string{"totp", "sms", "recovery"}, kinds: kindsC04, minOps: 16, maxOps: 40,
 	accts: [2]int{1, 2}, browsers: [2]int{1, 2}, middlewares: []string{""},
 	// the counter is kept by storage writes: a login step whose write fails must not be reported as a clean outcome
